@@ -527,6 +527,10 @@ func c12(tier string) int {
 		run.Set("interleavings_3_logs_len2", il3)
 		il += il3
 	}
+	// Main leg: omniwitness.Main itself over configurations that mix every
+	// feeder type (push-only logs included): the witness map, the HTTP
+	// endpoint and the list handed to the distributor name the same logs.
+	c12MainLists(run, u)
 	idn := c12Identity(run, u)
 	run.Set("identity_cases", idn)
 	run.Sample(map[string]any{"product_state_example": "[" + strings.Join([]string{"2:<root of A>", "⊥"}, " | ") + "]", "request": "cross: checkpoint of log-c@3 under the ID of log-a old=2"})
@@ -575,4 +579,30 @@ func c12(tier string) int {
 	run.Set("exhaustive", true)
 	run.Set("rule", fmt.Sprintf("product explicit-state BFS over 2 logs that share a signing key under different origins (sizes 0..%d, fork at 0, both stores) and 3 logs: for every product state and every request naming log X (reduced single-log alphabet + forged + every other log's checkpoints submitted under X's ID): all other components byte-identical before/after, and X's answer/successor equal to those of a one-log witness replaying only X's requests (differential oracle); plus all interleavings of independently chosen per-log histories (4 histories per log; 2 logs length 3, 3 logs length 2; thorough also 4 logs length 2 and 5 logs length 1) compared with the isolated runs; plus identity: for 15 origins the ID used by config.NewLog, the witness map, log.ID, the bastion endpoint (observed at a recording witness), the distributor (asked ID and PUT path) and the HTTP route agree, and all 84 configurations of <= 3 entries over 2 origins x 2 keys are refused iff two entries share an origin. distinct_nontrivial = distinct product states + identity cases", maxN))
 	return run.Finish()
+}
+
+// c12MainLists: one configuration per feeder type with two logs of that type,
+// and one with a log of every type.
+func c12MainLists(run *ev.Run, u *uni.U) {
+	types := []string{"serverless", "sumdb", "pixel", "rekor", "tiles", "none"}
+	entry := func(origin, ft string, k uni.Key) string {
+		url := "http://" + ft + ".log.verif.test/"
+		if ft == "rekor" {
+			url = "http://rekor.log.verif.test?treeID=1234567890"
+		}
+		return fmt.Sprintf("  - Origin: %s\n    URL: %s\n    PublicKey: %s\n    Feeder: %s\n", origin, url, k.VKey, ft)
+	}
+	mixed := "Logs:\n"
+	for i, ft := range types {
+		k := u.K1
+		if i%2 == 1 {
+			k = u.K2
+		}
+		y := "Logs:\n" + entry("verif.example/main/"+ft+"/0", ft, k) + entry("verif.example/main/"+ft+"/1", ft, k)
+		mainLogLists(run, "two-"+ft+"-logs", "a configuration of two "+ft+" logs", []byte(y))
+		mixed += entry("verif.example/main/mixed/"+ft, ft, k)
+		run.Add("main_configurations", 1)
+	}
+	mainLogLists(run, "one-log-of-every-feeder-type", "a configuration with one log of every feeder type", []byte(mixed))
+	run.Add("main_configurations", 1)
 }
